@@ -19,6 +19,7 @@ package c14
 
 import (
 	"bytes"
+	"encoding/base64"
 	"encoding/json"
 	"fmt"
 	"io/ioutil"
@@ -280,22 +281,28 @@ type job struct {
 }
 
 type stats struct {
-	mu        sync.Mutex
-	traces    int
-	evals     int
-	classes   map[string]bool
-	kinds     map[string]int
-	byDamage  map[string]int
-	realised  int
-	retried   int
-	unmapped  int
-	driftN    int
-	maxStream int
-	bytesCut  int
-	bytesFlip int
+	mu             sync.Mutex
+	traces         int
+	evals          int
+	classes        map[string]bool
+	kinds          map[string]int
+	byDamage       map[string]int
+	lenEffects     map[string]int
+	removedVariant int
+	realised       int
+	retried        int
+	unmapped       int
+	driftN         int
+	maxStream      int
+	bytesCut       int
+	bytesFlip      int
 }
 
 func runC14(c *core.Ctx) {
+	if c.Replay != "" {
+		runReplayFile(c)
+		return
+	}
 	o := c.Out()
 	o.Level = "model_checking"
 	o.Rule = "behaviour = one TLC-generated writer history executed on the real WAL + one concrete damage (cut offset / flipped byte and mask / none) + reading the files back (strict decoder, SearchForEndHeight for every height in both modes, decoding on from the returned reader); non-trivial = the damage is not 'none'; distinct = distinct (file layout, model damage class) pairs exercised"
@@ -306,6 +313,7 @@ func runC14(c *core.Ctx) {
 		"large logs (a filler block part makes the 40 KiB head buffer run full at a chosen byte) are damaged at every header / boundary byte and at sampled payload offsets, small logs at every byte",
 		"a search in which an altered record lies on the way to the marker may or may not find it (the property only demands it when the way is undamaged)",
 	}
+	o.Explanation = "TLC enumerates every log of NRecs records (every way the node's writer calls interleave with the head buffer running full and with rotations), every damage class and what the coded readers yield, and checks PrefixThenEnd / MarkerSound / MarkerComplete on the model. The harness writes each log with the real WAL, applies every concrete cut and flip, and compares the real decoder sequence and SearchForEndHeight results with the property (violation) and with the model's exact prediction (drift). The two switches of the model are set to what the code is probed to do; where a switch is at its as-coded value the model itself violates MarkerComplete (a lead) and the replay must reproduce that on the code."
 	o.Trusted = []string{"TLC", "the byte-to-cell mapping of the harness (cross-checked: intact-prefix length is recomputed from the bytes and compared with the model's for every case)", "libs/ser round trip (every undamaged record must re-encode to its payload)"}
 
 	// the logs are small and rewritten tens of thousands of times: keep them in memory-backed
@@ -370,25 +378,37 @@ func runC14(c *core.Ctx) {
 	}
 	var sides []*side
 	var swg sync.WaitGroup
-	runSide := func(name string, v writerVariant, invs string, timeout time.Duration) {
+	runSide := func(name string, baseCfg []byte, v writerVariant, invs string, timeout time.Duration) {
 		sd := &side{name: name}
 		sides = append(sides, sd)
+		files := map[string][]byte{name + ".cfg": cfgFor(string(baseCfg), v, invs, false)}
 		swg.Add(1)
 		go func() {
 			defer swg.Done()
-			sd.res = c.TLC(tlc.Options{SpecDir: c.SpecDir("WAL"), Module: "WAL", Config: name + ".cfg", Workers: 1, Timeout: timeout,
-				Files: map[string][]byte{name + ".cfg": cfgFor(string(quickCfg), v, invs, false)}})
+			sd.res = c.TLC(tlc.Options{SpecDir: c.SpecDir("WAL"), Module: "WAL", Config: name + ".cfg", Workers: 1, Timeout: timeout, Files: files})
 		}()
 	}
 	if !variant.FlushOnRotate {
-		runSide("lead-FlushOnRotate", writerVariant{false, true}, "TypeOK MarkerComplete", c.MinutesT(3, 10))
+		runSide("lead-FlushOnRotate", quickCfg, writerVariant{false, true}, "TypeOK MarkerComplete", c.MinutesT(3, 10))
 	}
 	if !variant.TornTailIsEOF {
-		runSide("lead-TornTailIsEOF", writerVariant{true, false}, "TypeOK MarkerComplete", c.MinutesT(3, 10))
+		runSide("lead-TornTailIsEOF", quickCfg, writerVariant{true, false}, "TypeOK MarkerComplete", c.MinutesT(3, 10))
 	}
 	if variant != designed && c.Thorough() {
-		runSide("designed", designed, "TypeOK PrefixThenEnd MarkerSound MarkerComplete", c.MinutesT(4, 20))
+		// the design is checked on the large instance (the leads stop at the first violation)
+		big, err := ioutil.ReadFile(filepath.Join(c.SpecDir("WAL"), cfgNames[0]))
+		if err != nil {
+			c.Infra("read %s: %v", cfgNames[0], err)
+			return
+		}
+		runSide("designed", big, designed, "TypeOK PrefixThenEnd MarkerSound MarkerComplete", c.MinutesT(4, 20))
 	}
+	// meanwhile: let the group's own ticker produce a rotation (takes up to 5 s of waiting)
+	swg.Add(1)
+	go func() {
+		defer swg.Done()
+		tickerRotationProbe(c, base)
+	}()
 	for _, cfgName := range cfgNames {
 		baseCfg, err := ioutil.ReadFile(filepath.Join(c.SpecDir("WAL"), cfgName))
 		if err != nil {
@@ -421,6 +441,7 @@ func runC14(c *core.Ctx) {
 			c.Infra("WAL model (%s, variant %+v): %s parse=%v\n%s", cfgName, variant, res.Describe(), parseErr, res.Tail)
 			return
 		}
+		o.CheckerCmd = res.Cmd
 	}
 	swg.Wait()
 	o.Exhaustive = true
@@ -487,7 +508,11 @@ func runC14(c *core.Ctx) {
 			}
 		}
 		used := map[int]bool{}
-		for ii := 0; ii < nInst; ii++ {
+		ni := nInst
+		if splits(l.Hists[idx[0]]) > 0 && ni > 2 {
+			ni = 2 // (40 KiB logs: two instantiations)
+		}
+		for ii := 0; ii < ni; ii++ {
 			hi := cheapest[(ii+int(c.Seed))%len(cheapest)]
 			used[hi] = true
 			jobs = append(jobs, job{li: li, ii: ii, l: l, hist: l.Hists[hi]})
@@ -498,7 +523,6 @@ func runC14(c *core.Ctx) {
 			}
 		}
 	}
-	// big (filler) jobs first
 	cost := func(j job) int {
 		n := 1
 		for _, a := range j.hist {
@@ -511,9 +535,11 @@ func runC14(c *core.Ctx) {
 		}
 		return n
 	}
-	sort.SliceStable(jobs, func(a, b int) bool { return cost(jobs[a]) > cost(jobs[b]) })
+	// cheap jobs first: the small logs (every byte damaged) are done within seconds; if the time
+	// budget runs out it is the sampled 40 KiB logs that are reported as not run
+	sort.SliceStable(jobs, func(a, b int) bool { return cost(jobs[a]) < cost(jobs[b]) })
 
-	st := &stats{classes: map[string]bool{}, kinds: map[string]int{}, byDamage: map[string]int{}}
+	st := &stats{classes: map[string]bool{}, kinds: map[string]int{}, byDamage: map[string]int{}, lenEffects: map[string]int{}}
 	tModel := time.Since(c.Start).Seconds()
 	nMasks := c.Pick(3, 5)
 
@@ -538,9 +564,11 @@ func runC14(c *core.Ctx) {
 	// ---- parallel replay
 	var wg sync.WaitGroup
 	ch := make(chan job)
-	deadline := time.Now().Add(c.MinutesT(1, 22))
+	// the whole check has to end within its tier's budget (2 / 30 minutes): whatever is not
+	// replayed by then is reported as an infrastructure failure, never silently dropped
+	deadline := c.Start.Add(26 * time.Minute)
 	if !c.Thorough() {
-		deadline = time.Now().Add(75 * time.Second)
+		deadline = c.Start.Add(10 * time.Minute) // (the quick replay takes seconds; this is a safety net)
 	}
 	var skipped int
 	var skipMu sync.Mutex
@@ -578,6 +606,8 @@ func runC14(c *core.Ctx) {
 	c.SetExtra("record_kinds_written", st.kinds)
 	c.SetExtra("cases_by_damage", st.byDamage)
 	c.SetExtra("largest_log_bytes", st.maxStream)
+	c.SetExtra("length_flip_effects", st.lenEffects)
+	c.SetExtra("cuts_with_later_files_removed", st.removedVariant)
 	c.SetExtra("cut_offsets", st.bytesCut)
 	c.SetExtra("flips", st.bytesFlip)
 	c.SetExtra("flip_masks_per_byte", nMasks)
@@ -663,6 +693,7 @@ func runJob(c *core.Ctx, wdir string, variant writerVariant, j job, st *stats, n
 	}
 	var buf []byte
 	sampled := false
+	nRemoved := 0
 	for _, d := range cases {
 		cls := rl.classify(d)
 		exp := l.Dmg[cls.key()]
@@ -702,6 +733,9 @@ func runJob(c *core.Ctx, wdir string, variant writerVariant, j job, st *stats, n
 			st.bytesCut++
 		} else if d.Kind == "flip" {
 			st.bytesFlip++
+			if cls.E != "-" {
+				st.lenEffects[cls.E]++
+			}
 		}
 		if v.Drift != "" {
 			st.driftN++
@@ -712,9 +746,28 @@ func runJob(c *core.Ctx, wdir string, variant writerVariant, j job, st *stats, n
 		} else if v.Drift != "" {
 			c.Drift("layout %s: %s", l.Key, v.Drift)
 		}
+		// a cut that empties whole files: the same with those files removed instead of empty
+		// (the group then has fewer files; OpenGroup creates an empty head)
+		if d.Kind == "cut" && nRemoved < 6 && len(rl.FileSize) > 1 && d.Off < len(rl.Stream)-rl.FileSize[len(rl.FileSize)-1] && (d.Off+j.li)%5 == 0 {
+			nRemoved++
+			if v2, ok := removedVariant(filepath.Join(wdir, "removed"), rl, d, cls, exp, heights); ok {
+				st.mu.Lock()
+				st.removedVariant++
+				st.traces++
+				st.mu.Unlock()
+				if v2.Key != "" {
+					c.Violate(v2.Key, "(files after the cut removed) "+v2.Desc, record(rl, d, cls, exp, ro))
+				} else if v2.Drift != "" {
+					c.Drift("layout %s, files after the cut removed: %s", l.Key, v2.Drift)
+				}
+			}
+		}
 		if !sampled && d.Kind == "flip" && (j.li+j.ii)%17 == 0 {
 			sampled = true
-			c.Sample(record(rl, d, cls, exp, ro))
+			smp := record(rl, d, cls, exp, ro)
+			delete(smp, "files") // (kept in replay files only)
+			delete(smp, "expect")
+			c.Sample(smp)
 		}
 	}
 }
@@ -728,9 +781,59 @@ func record(rl *realLog, d dcase, cls dmgT, exp *obsT, ro *realObs) map[string]i
 	for i, k := range rl.Kind {
 		recs = append(recs, fmt.Sprintf("%d:%s@%d+%d", i+1, k, rl.RecStart[i], rl.RecStart[i+1]-rl.RecStart[i]))
 	}
-	return map[string]interface{}{
-		"writer_history": rl.Hist, "abstract_records": rl.Recs, "records": recs, "file_sizes": rl.FileSize, "file_ends_in_cells": rl.Bounds,
-		"height_base": rl.Inst.Base, "damage": d.String(), "model_class": cls, "model_strict": seqString(exp.Strict), "real_strict": seqString(ro.Strict),
-		"real_search": sr, "model_search": exp.Search,
+	// the undamaged files themselves: bin/check C14 --replay re-reads exactly these bytes
+	// (the time stamps baseWAL.Write takes make a re-written log differ by a byte here and there)
+	var files []map[string]string
+	off := 0
+	for i, nm := range rl.FileName {
+		files = append(files, map[string]string{"name": nm, "b64": base64.StdEncoding.EncodeToString(rl.Stream[off : off+rl.FileSize[i]])})
+		off += rl.FileSize[i]
 	}
+	return map[string]interface{}{
+		"kind": "case", "writer_history": rl.Hist, "abstract_records": rl.Recs, "records": recs, "file_sizes": rl.FileSize, "file_ends_in_cells": rl.Bounds,
+		"height_base": rl.Inst.Base, "damage": d.String(), "model_class": cls, "model_strict": seqString(exp.Strict), "real_strict": seqString(ro.Strict),
+		"real_search": sr, "dcase": d, "expect": exp, "files": files,
+	}
+}
+
+// removedVariant reads a cut log whose files wholly after the cut do not exist.
+func removedVariant(dir string, rl *realLog, d dcase, cls dmgT, exp *obsT, heights []uint64) (verdict, bool) {
+	os.RemoveAll(dir)
+	if os.MkdirAll(dir, 0700) != nil {
+		return verdict{}, false
+	}
+	defer os.RemoveAll(dir)
+	// surviving files keep their names; the first file the cut empties becomes the (empty) head
+	off, kept := 0, 0
+	for i, nm := range rl.FileName {
+		lo, hi := off, off+rl.FileSize[i]
+		off = hi
+		if lo >= d.Off && i > 0 {
+			break
+		}
+		if hi > d.Off {
+			hi = d.Off
+		}
+		if i == len(rl.FileName)-1 {
+			nm = "wal"
+		}
+		if ioutil.WriteFile(filepath.Join(dir, nm), rl.Stream[lo:hi], 0600) != nil {
+			return verdict{}, false
+		}
+		kept++
+	}
+	if kept == len(rl.FileName) {
+		return verdict{}, false
+	}
+	w, err := cs.NewWAL(filepath.Join(dir, "wal"))
+	if err != nil {
+		return verdict{}, false
+	}
+	defer w.Group().Head.Close()
+	rd := &reader{dir: dir, rl: rl, w: w, names: nil, dirty: []bool{}}
+	ro, err := rd.observe(dcase{Kind: "none"}, nil, heights, false)
+	if err != nil {
+		return verdict{}, false
+	}
+	return rl.compare(d, cls, exp, ro, 0), true
 }
